@@ -30,13 +30,18 @@ T6 == [kfs |-> <<Kf(1, <<12>>, <<3>>, 0), Kf(3, <<60>>, N_, 11), Kf(4, <<30>>, <
 T7 == [kfs |-> <<Kf(4, <<64>>, N_, 0)>>, de |-> 1, tm |-> Tm(2, 1, 2, FALSE)]
 \* three non-collinear keyframes of ONE property, reversing: the terminal value is the original 0% value
 T8 == [kfs |-> <<Kf(0, <<100>>, N_, 0), Kf(2, <<120>>, <<5>>, 0), Kf(4, <<200>>, <<90>>, 0)>>, de |-> 1, tm |-> Tm(4, 1, 0, TRUE)]
+\* opposite signs (the scaled-value replay then spans more than f32::MAX between neighbours)
+T9 == [kfs |-> <<Kf(0, <<-100>>, <<-7>>, 0), Kf(4, <<100>>, <<7>>, 0)>>, de |-> 1, tm |-> Tm(4, 0, -1, FALSE)]
+\* starts exactly when T1 ends (delay = T1's total duration): a sequenced pair inside one merged timeline
+T10 == [kfs |-> <<Kf(0, N_, <<50>>, 0), Kf(4, N_, <<77>>, 0)>>, de |-> 1, tm |-> Tm(4, 4, -1, FALSE)]
 Pool == <<
   [tls |-> <<<<T1>>, <<T2>>, <<>>, <<>>>>,          s0 |-> 1, v0 |-> <<5, 7>>],
   [tls |-> <<<<T3>>, <<T5, T4>>, <<>>, <<T1>>>>,    s0 |-> 1, v0 |-> <<5, 7>>],
   [tls |-> <<<<T2>>, <<>>, <<T6>>, <<T5>>>>,        s0 |-> 3, v0 |-> <<2, 0>>],
   [tls |-> <<<<>>, <<T7>>, <<T1, T5>>, <<>>>>,      s0 |-> 1, v0 |-> <<9, 4>>],
   [tls |-> <<<<T6>>, <<T3>>, <<>>, <<T4>>>>,        s0 |-> 2, v0 |-> <<0, 0>>],
-  [tls |-> <<<<T8>>, <<>>, <<T7, T8>>, <<T2>>>>,    s0 |-> 1, v0 |-> <<3, 1>>] >>
+  [tls |-> <<<<T8>>, <<>>, <<T7, T8>>, <<T2>>>>,    s0 |-> 1, v0 |-> <<3, 1>>],
+  [tls |-> <<<<T9>>, <<T1, T10>>, <<>>, <<T4>>>>,   s0 |-> 1, v0 |-> <<-90, 4>>] >>
 Cfg == Pool[K]
 
 VARIABLES cur, ticks, paused, ov, vals, tls, hist, obs, rng
